@@ -365,6 +365,10 @@ class SymBackend(BackendBase):
     def get_field(self, obj, field):
         return obj.fields[field]
 
+    def get_public(self, obj, name):
+        """the value of a public read accessor (a property of the real class, interpreted)"""
+        return self.I.getattr(obj, name)
+
     def has_field(self, obj, field):
         return field in obj.fields
 
